@@ -94,7 +94,8 @@ def _c04_structure_leaf(v):
 def _c12_lift(v):
     m = v["mech"]
     return v["oracle"] == "approved-edit-failed" and m.get("helper") == "lift_target" and m.get("exc") == "TransformError" \
-        and m.get("levels", 0) >= 2 and m.get("remainder_invalid") is True
+        and m.get("levels", 0) >= 2 and m.get("remainder_invalid_at_outer_level") is True \
+        and m.get("remainder_invalid_at_range_level") is False
 
 
 @predicate("C17-reparenting-validity")
@@ -114,7 +115,8 @@ def _c17_reparent_mark(v):
 def _c18_leak(v):
     m = v["mech"]
     return v["oracle"] == "leaked" and m.get("delete_family") is False and m.get("has_payload") is True \
-        and m.get("old_outside_tokens_preserved_in_order") is True
+        and m.get("old_outside_tokens_preserved_in_order") is True \
+        and m.get("inner_replace_range_outside_isolating_node") is not True
 
 
 @predicate("C11-slice-node-open-on-both-sides")
